@@ -429,6 +429,7 @@ fn is_if_guard(if_node: &If) -> bool {
         && trivia_util::is_block_simple(if_node.block())
         && !trivia_util::contains_comments(if_node.block())
         && !trivia_util::contains_comments(if_node.then_token())
+        && !if_node.end_token().has_leading_comments(CommentSearch::All)
 }
 
 /// Format an If node
